@@ -546,20 +546,39 @@ Theorem j2t_walk_num_mismatch :
 Proof. exact J2TWalkProofs.walk_num_mismatch. Qed.
 Print Assumptions j2t_walk_num_mismatch.
 
-(* ... but NOT for strings (finding 212): a string for a descriptor that takes none is dropped and the walk carries on with the
-   next value; at the top level the portable converter returns empty output and nil error where the spec says Err.
-   This is why there is no clean `spec Err -> walk Err` theorem. *)
-Theorem j2t_walk_string_mismatch_skips :
+(* ... and for strings (since /repo 11a56b9, the fix of finding 212: before, a string for a descriptor that takes none fell out of
+   the switch and the walk carried on with the next value) *)
+Theorem j2t_walk_string_mismatch :
   forall D o x t f r, jbytes_okb x = true -> utf8_valid x = true -> kind_ok (jopts_of o) t (JStr x) = false ->
-  walk D o (S f) t (quote_ref x ++ r) = walk D o f t r.
-Proof. exact J2TWalkProofs.walk_string_mismatch_skips. Qed.
-Print Assumptions j2t_walk_string_mismatch_skips.
+  walk D o (S f) t (quote_ref x ++ r) = WErr W_DISMATCH.
+Proof. exact J2TWalkProofs.walk_string_mismatch. Qed.
+Print Assumptions j2t_walk_string_mismatch.
 
-Theorem j2t_walk_string_mismatch_refuted :
+(* the clean error side: every kind contradiction at the value the walk stands on is a type-mismatch error of the walk, for every
+   descriptor table and option set (a null is reported to the enclosing container, which drops the member) ... *)
+Theorem j2t_walk_rejects_kind_mismatch_at :
+  forall D o j t f r, json_wf j = true -> json_utf8 j = true -> stop r = true ->
+  kind_ok (jopts_of o) t j = false -> j <> JNull ->
+  walk D o (S f) t (json_print j ++ r) = WErr W_DISMATCH.
+Proof. exact J2TWalkProofs.walk_rejects_kind_mismatch. Qed.
+Print Assumptions j2t_walk_rejects_kind_mismatch_at.
+
+(* ... and at the top level (null included) whenever the strict spec's kind test fails: spec Err (kind mismatch) => walk Err.
+   (For a STRING / binary root a text that does not start with the quote is, as documented, the string itself.) *)
+Theorem j2t_walk_rejects_kind_mismatch :
+  forall D o j t, json_wf j = true -> json_utf8 j = true -> is_string_ty t = false -> kind_ok (jopts_of o) t j = false ->
+  (exists c, j2t_walk D o t (json_print j) = TErr c) /\ (exists c, j2t_val strict D (jopts_of o) t 1 j = Err c).
+Proof.
+  intros D o j t Hw Hu Hs Hk. split; [apply J2TWalkProofs.j2t_walk_rejects_kind_mismatch; assumption | apply j2t_rejects_kind_mismatch; exact Hk].
+Qed.
+Print Assumptions j2t_walk_rejects_kind_mismatch.
+
+(* regression statement on the former witness of finding 212 *)
+Theorem j2t_walk_string_mismatch_rejected :
   forall D o x t, jbytes_okb x = true -> utf8_valid x = true -> kind_ok (jopts_of o) t (JStr x) = false ->
-  j2t_walk D o t (json_print (JStr x)) = TOk [] /\ exists c, j2t_val strict D (jopts_of o) t 1 (JStr x) = Err c.
-Proof. exact J2TWalkProofs.j2t_walk_string_mismatch_silent. Qed.
-Print Assumptions j2t_walk_string_mismatch_refuted.
+  j2t_walk D o t (json_print (JStr x)) = TErr W_DISMATCH /\ exists c, j2t_val strict D (jopts_of o) t 1 (JStr x) = Err c.
+Proof. exact J2TWalkProofs.j2t_walk_string_mismatch_rejected. Qed.
+Print Assumptions j2t_walk_string_mismatch_rejected.
 
 (* the fuel of j2t_walk always suffices (for every text, descriptor and option set) *)
 Theorem j2t_walk_never_out_of_fuel : forall D o t text, j2t_walk D o t text <> TErr W_FUEL.
@@ -602,12 +621,13 @@ Example ex_walk_eq_spec :
   = TOk [8;0;1;0;0;0;1;13;0;3;10;12;0;0;0;1;0;0;0;0;0;0;0;7;0;0].
 Proof. vm_compute. split; reflexivity. Qed.
 
-(* peculiarities of the code reproduced by the walk (each differs from the strict spec, which rejects all five texts):
-   {"t":"x" true}  — the string falls out of the switch and the next value is converted;   {"a":007};   {"d":1e999} reads as 0;
+(* peculiarities of the code reproduced by the walk (the strict spec rejects all of these texts; so does the walk for the first two
+   since the fix of finding 212: {"t":"x" true} and a top-level "x" for a struct used to be converted / silently empty);   {"a":007};   {"d":1e999} reads as 0;
    a top-level string literal abc cut off by the end of the text (no closing quote) for a string descriptor yields ab;
    300 for a byte descriptor keeps 44; a top-level null and an unknown member under DisallowUnknownField are errors *)
 Example ex_walk_peculiar :
-  j2t_walk wD wo0 (TStruct 0) [123;34;116;34;58;34;120;34;32;116;114;117;101;125] = TOk [2;0;6;1;0] /\
+  j2t_walk wD wo0 (TStruct 0) [123;34;116;34;58;34;120;34;32;116;114;117;101;125] = TErr W_DISMATCH /\
+  j2t_walk wD wo0 (TStruct 0) [34;120;34] = TErr W_DISMATCH /\
   j2t_walk wD wo0 (TStruct 0) [123;34;97;34;58;48;48;55;125] = TOk [8;0;1;0;0;0;7;0] /\
   j2t_walk wD wo0 (TStruct 0) [123;34;100;34;58;49;101;57;57;57;125] = TOk [4;0;4;0;0;0;0;0;0;0;0;0] /\
   j2t_walk wD wo0 TString [34;97;98;99] = TOk [0;0;0;2;97;98] /\
